@@ -43,3 +43,84 @@ func verifLemma_C10_geometry(e GeometryEncoding, l int) {
 	verifrt.Assert(DecodeGeometryLen(v) == l, "length")
 	verifrt.Assert(DecodeGeometryEncoding(v) == e, "encoding")
 }
+
+// ---- C11: element codecs --------------------------------------------------
+// Each lemma marshals an arbitrary value into a buffer and unmarshals it into a
+// fresh value: the result is equal and the decoder consumes exactly the bytes
+// the encoder wrote. binary.PutUvarint/Uvarint enter through their contracts.
+
+func verifLemma_C11_latlng(ll LatLng, primary TypeAndNamespace) {
+	var buffer [32]byte
+	n := ll.Marshal(primary, buffer[0:])
+	var got LatLng
+	m := got.Unmarshal(primary, buffer[0:])
+	verifrt.Assert(m == n, "consumes-what-was-written")
+	verifrt.Assert(got == ll, "value")
+}
+
+func verifLemma_C11_int(v Int, primary TypeAndNamespace) {
+	verifrt.Assume(v >= 0 && v < 1<<62) // string table indices; EncodeValueType panics beyond 62 bits
+	var buffer [32]byte
+	n := v.Marshal(primary, buffer[0:])
+	var got Int
+	m := got.Unmarshal(primary, buffer[0:])
+	verifrt.Assert(m == n, "consumes-what-was-written")
+	verifrt.Assert(got == v, "value")
+}
+
+func verifLemma_C11_reference(r Reference, primary TypeAndNamespace) {
+	var buffer [32]byte
+	n := r.Marshal(primary, buffer[0:])
+	var got Reference
+	m := got.Unmarshal(primary, buffer[0:])
+	verifrt.Assert(m == n, "consumes-what-was-written")
+	verifrt.Assert(got == r, "value")
+}
+
+func verifLemma_C11_namespace_index(ni NamespaceIndex) {
+	verifrt.Assume(ni.Index >= 0)
+	var buffer [32]byte
+	n := ni.Marshal(buffer[0:])
+	var got NamespaceIndex
+	m := got.Unmarshal(buffer[0:])
+	verifrt.Assert(m == n, "consumes-what-was-written")
+	verifrt.Assert(got == ni, "value")
+}
+
+func verifLemma_C11_tag_string(key int, v Int, primary TypeAndNamespace) {
+	verifrt.Assume(key >= 0 && v >= 0 && v < 1<<62)
+	var buffer [48]byte
+	t := Tag{Key: key, Value: &v}
+	n := t.Marshal(primary, buffer[0:])
+	var got Tag
+	m := got.Unmarshal(primary, buffer[0:])
+	verifrt.Assert(m == n, "consumes-what-was-written")
+	verifrt.Assert(got.Key == key, "key")
+	gv, ok := got.Value.(*Int)
+	verifrt.Assert(ok, "value-kind")
+	verifrt.Assert(*gv == v, "value")
+}
+
+func verifLemma_C11_tag_point(key int, ll LatLng, primary TypeAndNamespace) {
+	verifrt.Assume(key >= 0)
+	var buffer [48]byte
+	t := Tag{Key: key, Value: &ll}
+	n := t.Marshal(primary, buffer[0:])
+	var got Tag
+	m := got.Unmarshal(primary, buffer[0:])
+	verifrt.Assert(m == n, "consumes-what-was-written")
+	verifrt.Assert(got.Key == key, "key")
+	gv, ok := got.Value.(*LatLng)
+	verifrt.Assert(ok, "value-kind")
+	verifrt.Assert(*gv == ll, "value")
+}
+
+func verifLemma_C11_feature_block_header(h FeatureBlockHeader) {
+	verifrt.Assume(h.FeatureType >= 0 && h.FeatureType < 256)
+	var buffer [FeatureBlockHeaderLength]byte
+	n := h.Marshal(buffer[0:])
+	var got FeatureBlockHeader
+	m := got.Unmarshal(buffer[0:])
+	verifrt.Assert(n == FeatureBlockHeaderLength && m == n, "consumes-what-was-written")
+	verifrt.Assert(got == h, "value")
+}
